@@ -203,10 +203,14 @@ def shrink(module, tier, viol, budget_s=60, max_replays=2500):
         if replays[0] >= max_replays or time.time() - t0 > budget_s:
             return None
         replays[0] += 1
+        t1 = time.time()
         try:
             r = execute(module, tier, decisions=dec, preset=preset)
         except BaseException:
             return None
+        if time.time() - t1 > 3.0:
+            # very long runs: a handful of replays is all the budget allows
+            replays[0] += max_replays // 12
         v = r['violation']
         if v and (v[0], v[1]) == target:
             return r
